@@ -91,3 +91,55 @@ theorem hole_reads_zero (d : Bytes) (off : Nat) (w : Bytes) (hw : w ≠ []) (i :
   rw [List.getD_eq_getElem?_getD, List.getElem?_eq_none h1]; rfl
 
 end Absnfs.Fs
+
+namespace Absnfs.Fs
+
+/-- the size test of the server (C25) on one operation: where the operation would end -/
+def FileOp.endsAt : FileOp → Nat
+  | .write off w => off + w.length
+  | .trunc n => n
+
+/-- an operation under a size limit: refused (file unchanged) when it would end beyond the limit -/
+def guardedOp (lim : Nat) (d : Bytes) (op : FileOp) : Bytes := if op.endsAt > lim then d else applyFileOp d op
+
+theorem applyFileOp_length_le (d : Bytes) (op : FileOp) (lim : Nat) (hd : d.length ≤ lim) (ho : op.endsAt ≤ lim) :
+    (applyFileOp d op).length ≤ lim := by
+  cases op with
+  | write off w =>
+    simp only [applyFileOp, FileOp.endsAt] at *
+    by_cases hw : w = []
+    · simp only [writeBytes, hw, if_true]; exact hd
+    · rw [writeBytes_length _ _ _ hw]; omega
+  | trunc n =>
+    simp only [applyFileOp, FileOp.endsAt, truncBytes_length] at *; exact ho
+
+/-- every history, any operations at all (accepted or refused), any length: a file within the limit stays within it -/
+theorem guarded_run_length_le (lim : Nat) (d : Bytes) (ops : List FileOp) (hd : d.length ≤ lim) :
+    (ops.foldl (guardedOp lim) d).length ≤ lim := by
+  induction ops generalizing d with
+  | nil => exact hd
+  | cons op ops ih =>
+    simp only [List.foldl_cons]
+    apply ih
+    unfold guardedOp
+    split
+    · exact hd
+    · exact applyFileOp_length_le d op lim hd (by omega)
+
+/-- and a history that never asks for more than the limit is not affected by the limit at all -/
+theorem guarded_run_eq_unguarded (lim : Nat) (d : Bytes) (ops : List FileOp) (h : ∀ op ∈ ops, op.endsAt ≤ lim) :
+    ops.foldl (guardedOp lim) d = ops.foldl applyFileOp d := by
+  induction ops generalizing d with
+  | nil => rfl
+  | cons op ops ih =>
+    simp only [List.foldl_cons]
+    have : guardedOp lim d op = applyFileOp d op := by
+      unfold guardedOp
+      have := h op List.mem_cons_self
+      split
+      · omega
+      · rfl
+    rw [this]
+    exact ih _ (fun o ho => h o (List.mem_cons_of_mem _ ho))
+
+end Absnfs.Fs
